@@ -107,7 +107,7 @@ func checkText(c *fw.Ctx, text, origin string, knownValid bool) bool {
 			v := lexOK && cfg.Accepts(toks)
 			if knownValid && !v {
 				c.Count("recogniser_rejects_generated_script", 1)
-				c.Violation("harness:recogniser-vs-generator", "the harness's recogniser rejects a script its own generator produced (harness defect, not a verdict about the parser)", input())
+				c.Violation("harness:recogniser-vs-generator", "the recogniser, which reads the tokens of the repository's generated lexer, rejects a script the generator produced from the grammar: the lexer no longer tokenises a valid script as the grammar says (or the harness's generator and recogniser disagree)", input())
 				return false
 			}
 			valid, decided = v, true
